@@ -118,6 +118,11 @@ func (db *DB) Merge() error {
 				if err != nil {
 					return err
 				}
+				// 重写文件的 id 必须小于未参与 merge 的最小文件 id, 否则采用时会与其冲突.
+				// 此时放弃本次 merge: 未写入完成标识, 临时目录会被忽略
+				if mergeDB.activeFile.ID >= nonMergeFileId {
+					return ErrMergeFileIDConflict
+				}
 				// merge的过程中顺便将构建索引所需信息写入 Hint 文件中, 用于后续重启时加速构建索引
 				if err := hintFile.WriteHintRecord(logRecord.Key, db.hintPos, pos); err != nil {
 					return err
